@@ -3,6 +3,10 @@
 #[derive(Clone, Debug)]
 pub struct Rng {
     s: [u64; 4],
+    /// "tape" mode (coverage-guided fuzzing): decisions are read from these bytes; when they run out the PRNG
+    /// (seeded from the tape) takes over
+    tape: Option<std::sync::Arc<Vec<u8>>>,
+    pos: usize,
 }
 
 fn splitmix(x: &mut u64) -> u64 {
@@ -33,7 +37,30 @@ impl Rng {
         let s = [splitmix(&mut x), splitmix(&mut x), splitmix(&mut x), splitmix(&mut x)];
         Rng {
             s,
+            tape: None,
+            pos: 0,
         }
+    }
+
+    /// A generator whose decisions are dictated by `data` (one or two bytes per small decision), so that a
+    /// coverage-guided fuzzer mutating `data` steers the workload generators.
+    pub fn from_tape(data: &[u8]) -> Rng {
+        let mut r = Rng::from_parts(&[fnv64(data), data.len() as u64]);
+        r.tape = Some(std::sync::Arc::new(data.to_vec()));
+        r
+    }
+
+    fn tape_bytes(&mut self, n: usize) -> Option<u64> {
+        let t = self.tape.as_ref()?;
+        if self.pos + n > t.len() {
+            return None;
+        }
+        let mut v = 0u64;
+        for i in 0..n {
+            v |= (t[self.pos + i] as u64) << (8 * i);
+        }
+        self.pos += n;
+        Some(v)
     }
 
     pub fn keyed(seed: u64, prop: &str, workload: &str, shard: u64, case: u64) -> Rng {
@@ -41,6 +68,15 @@ impl Rng {
     }
 
     pub fn next_u64(&mut self) -> u64 {
+        if self.tape.is_some() {
+            if let Some(v) = self.tape_bytes(8) {
+                return v;
+            }
+        }
+        self.prng_u64()
+    }
+
+    fn prng_u64(&mut self) -> u64 {
         let result = self.s[1].wrapping_mul(5).rotate_left(7).wrapping_mul(9);
         let t = self.s[1] << 17;
         self.s[2] ^= self.s[0];
@@ -55,6 +91,18 @@ impl Rng {
     /// uniform in 0..n (n > 0)
     pub fn below(&mut self, n: u64) -> u64 {
         debug_assert!(n > 0);
+        if self.tape.is_some() {
+            let width = if n <= 256 {
+                1
+            } else if n <= 65_536 {
+                2
+            } else {
+                8
+            };
+            if let Some(v) = self.tape_bytes(width) {
+                return v % n;
+            }
+        }
         ((self.next_u64() as u128 * n as u128) >> 64) as u64
     }
 
